@@ -44,6 +44,10 @@ pub mod c11;
 pub mod c25;
 pub mod c25_mutate;
 pub mod crashsig;
+pub mod c05;
+pub mod c07;
+pub mod c31;
+pub mod evalkit;
 
 pub fn registry() -> Vec<Prop> {
     vec![
@@ -78,5 +82,8 @@ pub fn registry() -> Vec<Prop> {
         Prop { id: "C24", run: c24::run, replay: c24::replay },
         Prop { id: "C11", run: c11::run, replay: c11::replay },
         Prop { id: "C25", run: c25::run, replay: c25::replay },
+        Prop { id: "C05", run: c05::run, replay: c05::replay },
+        Prop { id: "C07", run: c07::run, replay: c07::replay },
+        Prop { id: "C31", run: c31::run, replay: c31::replay },
     ]
 }
